@@ -4,7 +4,7 @@ from ..harnesses import HEnum, HMixed, HStory, accessor_states
 from ..monitors import Accessors
 
 RULE = ('(1) H-ENUM: all running orders with n <= 3 stories x timing kind per story {StoryDuration, Text+MediaTime, metadata '
-        'without timing, no metadata} x 0..2 items per story carrying the subsets of the optional item fields {slug, objID, '
+        'without timing, metadata without a mosPayload, no metadata} x 0..2 items per story carrying the subsets of the optional item fields {slug, objID, '
         'objType, mosID, note} x story slug present/absent x roEdStart {present, empty, absent}; (2) H-MIXED: every state '
         'reached from the initial shapes (mixed timing metadata, stories without durations) by every message of all 24 '
         'classes, to depth D, incl. inserts/appends/replaces/sends of stories with and without timing metadata; (3) the '
@@ -26,14 +26,14 @@ def run(tier):
     mon = [Accessors()]
     if tier == 'quick':
         parts = [
-            {'label': 'enumerated-shapes', 'harness': HEnum(accessor_states(max_n=2), 'accessors'), 'monitors': mon},
+            {'label': 'enumerated-shapes', 'harness': HEnum(accessor_states(max_n=2, kinds=('dur', 'both', 'none', 'nometa', 'nopayload')), 'accessors'), 'monitors': mon},
             {'label': 'mixed-depth1', 'harness': HMixed(max_list=1, story_L=1, meta_subsets=1), 'monitors': mon, 'opts': {'max_depth': 0}},
             {'label': 'stories-without-timing', 'harness': HStory(pool=4, cap=3, max_list=1, timing={'A': 'nometa', 'AB': 'none', 'C': 'dur', 'D': 'nometa'},
                                                                  layouts=('before',), no_expand=()), 'monitors': mon},
         ]
     else:
         parts = [
-            {'label': 'enumerated-shapes', 'harness': HEnum(accessor_states(max_n=3), 'accessors'), 'monitors': mon},
+            {'label': 'enumerated-shapes', 'harness': HEnum(accessor_states(max_n=3, kinds=('dur', 'both', 'none', 'nometa', 'nopayload')), 'accessors'), 'monitors': mon},
             {'label': 'mixed-depth2', 'harness': HMixed(max_list=1, story_L=1, meta_subsets=1), 'monitors': mon, 'opts': {'max_depth': 1, 'max_states': 4000, 'time_cap': 1200}},
             {'label': 'stories-without-timing', 'harness': HStory(pool=5, cap=4, max_list=2, timing={'A': 'nometa', 'AB': 'none', 'C': 'dur', 'D': 'nometa', 'E': 'both'},
                                                                  layouts=('before', 'between'), no_expand=()), 'monitors': mon},
